@@ -411,12 +411,39 @@ def run_fold(case):
       batches.append(b)
     clients.append((cid, batches, cin))
 
+  # for_each_client takes any hashable as a client id (`ClientId = Any`):
+  # bytes, str, int, tuples -- and None, although None is what the pmap backend
+  # uses internally for its padding clients.
+  id_kind = case.get('id_kind', 'bytes')
+
+  def external(j, cid):
+    if id_kind == 'str':
+      return 'id-' + cid.hex()
+    if id_kind == 'int':
+      return int.from_bytes(cid, 'big') - 7
+    if id_kind == 'tuple':
+      return (j % 2, cid)
+    if id_kind == 'none_one' and j == case.get('none_pos', 0) % max(1, len(clients)):
+      return None
+    return cid
+
+  ext = {cid: external(j, cid) for j, (cid, _, _) in enumerate(clients)}
+  inv = {}
+  for cid, e in ext.items():
+    inv[e] = cid
+
   def client_tuples():
     for cid, batches, cin in clients:
-      yield cid, (iter(batches) if case['batches_as'] == 'iterator' else batches), cin
+      yield ext[cid], (iter(batches) if case['batches_as'] == 'iterator' else batches), cin
 
   arg = client_tuples() if case['clients_as'] == 'generator' else list(client_tuples())
   got = list(func(shared, arg))
+  bad_ids = [item[0] for item in got if isinstance(item, tuple) and item and
+             not (item[0].__hash__ is not None and item[0] in inv)]
+  require(not bad_ids, 'result_for_unknown_or_padding_client',
+          lambda: f'yielded ids {bad_ids!r} for input ids {list(inv)!r}')
+  got = [((inv[item[0]],) + tuple(item[1:])) if isinstance(item, tuple) and item else item
+         for item in got]
 
   ids = [cid for cid, _, _ in clients]
   w = f'backend={backend} clients={len(ids)} batch_counts={[len(b) for _, b, _ in clients]}'
@@ -661,6 +688,9 @@ def fold_strategy(draw, tier):
       'select': draw(st.sampled_from(['context', 'context', 'set'])),
       'with_step_result': draw(st.sampled_from([True, True, False])),
       'clients_as': draw(st.sampled_from(['list', 'generator'])),
+      'id_kind': draw(st.sampled_from(['bytes', 'bytes', 'bytes', 'str', 'int', 'tuple',
+                                       'none_one', 'none_one'])),
+      'none_pos': draw(st.integers(0, 10)),
       'batches_as': draw(st.sampled_from(['list', 'list', 'iterator'])),
       'batch_kind': draw(st.sampled_from(['jax', 'jax', 'numpy'])),
       'shared': {'w': _digits(draw, k, -3, 3),
